@@ -327,9 +327,9 @@ def run(ctx):
     ROTS = ROTS or _rots()
     for n, r in enumerate(tris):
         # every catalogue pair under one motion (cycling through all of them); pairs on a rectangle that is not
-        # mirror symmetric (a # b) under four (thorough: all) motions; thorough: three motions for the square ones
+        # mirror symmetric (a # b) under four (thorough: all, 3x2: three) motions; thorough: three motions for the square ones
         if r["a"] != r["b"]:
-            ks = [n, n + 3, n + 6, n + 9] if ctx.quick else list(range(len(ROTS)))
+            ks = [n, n + 3, n + 6, n + 9] if ctx.quick else (list(range(len(ROTS))) if r["a"] * r["b"] <= 3 else [n, n + 4, n + 8])
         else:
             ks = [n] if ctx.quick else [n, n + 4, n + 8]
         for k in ks:
